@@ -172,6 +172,72 @@ type h3Gen struct {
 	plain      []byte // the body before coding
 	coded      []byte // the whole coded body (sent is the part of it that was written)
 	interim    [][]wire.Field
+	// the declared length is already satisfied at the cut (FIN between two frames is then a
+	// complete body as far as anyone can tell, e.g. only the trailer section is missing)
+	allDeclared bool
+	// every-offset cuts: the stream they belong to, the whole stream, its body, the offset
+	cutGroup         int
+	cutFull, cutBody []byte
+	cutK             int
+}
+
+// genH3Cuts: whole response streams - DATA frames (one of them empty), an unknown frame, a
+// trailer section - cut at EVERY byte offset: every frame boundary, every byte of every
+// frame header (type, length), the first and every later byte of every payload, the trailer
+// frame included.  Ended by FIN (every offset), RESET_STREAM / CONNECTION_CLOSE (every third).
+func genH3Cuts(rng *hk.Rand, nStreams int) []*h3Gen {
+	var out []*h3Gen
+	for si := 0; si < nStreams; si++ {
+		body := wire.GenBody(rng, hk.Pick(rng, []int{3, 9, 20}))
+		pieces := wire.Partition(rng, body, false, 3)
+		withCL := si%2 == 0
+		var full []byte
+		type span struct{ start, end int } // payload of a DATA frame inside full
+		var spans []span
+		bounds := map[int]bool{0: true}
+		frame := func(b []byte) { full = append(full, b...); bounds[len(full)] = true }
+		for i, p := range pieces {
+			if i == 1 {
+				frame(wire.H3DataHeader(0)) // an empty DATA frame
+				frame(append(append(viLen(0x21, 0), viLen(3, hk.Pick(rng, []int{0, 2}))...), rng.Bytes(3)...))
+			}
+			h := append(viLen(0, 0), viLen(uint64(len(p)), hk.Pick(rng, []int{0, 0, 2, 4}))...)
+			spans = append(spans, span{len(full) + len(h), len(full) + len(h) + len(p)})
+			frame(append(h, p...))
+		}
+		if si%3 != 2 {
+			frame(wire.H3HeadersFrame([]wire.Field{{Name: "x-trailer", Value: "t"}}))
+		}
+		for k := 0; k <= len(full); k++ {
+			ends := []string{"fin"}
+			if k%3 == si%3 {
+				ends = append(ends, []string{"reset", "connclose"}[(k/3)%2])
+			}
+			for _, end := range ends {
+				g := &h3Gen{shape: "every-offset", end: end, cl: -1, clMode: "none", cutGroup: si, cutFull: full, cutBody: body, cutK: k}
+				if withCL {
+					g.cl, g.clMode = len(body), "exact"
+				}
+				var sent []byte
+				for _, sp := range spans {
+					if k > sp.start {
+						sent = append(sent, full[sp.start:min(k, sp.end)]...)
+					}
+				}
+				g.sent = sent
+				g.wire = append([]byte(nil), full[:k]...)
+				if k > 0 {
+					g.actions = []wire.H3Action{{Kind: "raw", Payload: g.wire}}
+					g.segs = []string{"SegRaw " + coqBig(g.wire)}
+				}
+				g.complete = k == len(full) && end == "fin"
+				g.atBoundary = bounds[k]
+				g.allDeclared = withCL && len(sent) == len(body)
+				out = append(out, g)
+			}
+		}
+	}
+	return out
 }
 
 func (g *h3Gen) data(declared uint64, payload []byte) {
@@ -386,6 +452,10 @@ func runH3(r *hk.Run, rng *hk.Rand) {
 	for i := range jobs {
 		jobs[i] = &job{g: genH3(rng, h3Shapes[i%len(h3Shapes)], i/len(h3Shapes)), auto: i%7 == 6}
 	}
+	for i, g := range genH3Cuts(rng, r.Scale(6, 60)) {
+		jobs = append(jobs, &job{g: g, auto: i%9 == 8})
+	}
+	n = len(jobs)
 	sem := make(chan struct{}, 6)
 	done := make(chan struct{}, n)
 	for _, j := range jobs {
@@ -428,6 +498,25 @@ func runH3(r *hk.Run, rng *hk.Rand) {
 	for range jobs {
 		<-done
 	}
+	type cutGroupT struct {
+		g   *h3Gen
+		obs []string
+	}
+	cutGroups := map[int]*cutGroupT{}
+	defer func() {
+		for gi := 0; gi < len(cutGroups)+64; gi++ {
+			cg := cutGroups[gi]
+			if cg == nil {
+				continue
+			}
+			for a := 0; a < len(cg.obs); a += 150 {
+				b := min(a+150, len(cg.obs))
+				r.Add(hk.Case{Coq: fmt.Sprintf("H3Cuts %s %s %s %s", coqBlocks(nil, 200, cg.g.cl), coqBig(cg.g.cutFull), coqBig(cg.g.cutBody), hk.CoqList(cg.obs[a:b])),
+					Desc: map[string]interface{}{"kind": "h3cuts", "stream": fmt.Sprintf("%x", cg.g.cutFull), "content_length": cg.g.cl, "n_obs": b - a}},
+					fmt.Sprintf("h3cuts|%x|%d|%d", cg.g.cutFull, cg.g.cl, a), true)
+			}
+		}
+	}()
 	for _, j := range jobs {
 		g, o := j.g, j.o
 		sig := fmt.Sprintf("h3:%s:end-%s:cl-%s:%s", g.shape, g.end, g.clMode, o.Mode)
@@ -453,7 +542,7 @@ func runH3(r *hk.Run, rng *hk.Rand) {
 		consistent := headers && g.complete && (g.cl < 0 || g.cl == len(g.sent))
 		// the honest limit: without a declared length the FIN is the only end marker, so a FIN
 		// between two frames cannot be told from the end of the message
-		undetectable := headers && g.cl < 0 && g.end == "fin" && g.atBoundary && g.shape != "data-after-trailers"
+		undetectable := headers && (g.cl < 0 || g.allDeclared) && g.end == "fin" && g.atBoundary && g.shape != "data-after-trailers"
 		tooMany := len(g.interim) > 5 // the client gives up at the sixth interim response (model: the call fails)
 		if tooMany {
 			r.Count("h3.too-many-interim-responses")
@@ -508,6 +597,17 @@ func runH3(r *hk.Run, rng *hk.Rand) {
 			codedOpt := "None"
 			if g.coding != "" {
 				codedOpt = fmt.Sprintf("(Some (%s, %s, %s))", coqCoding(g.coding), hk.CoqN(uint64(len(g.coded))), hk.CoqN(uint64(len(g.plain))))
+			}
+			if g.shape == "every-offset" {
+				// one Coq case per stream (below), not one per offset
+				cg := cutGroups[g.cutGroup]
+				if cg == nil {
+					cg = &cutGroupT{g: g}
+					cutGroups[g.cutGroup] = cg
+				}
+				cg.obs = append(cg.obs, fmt.Sprintf("(%s, %s, %s, %s)", hk.CoqN(uint64(g.cutK)), end, seen, hk.CoqBool(o.SameConn)))
+				r.Add(hk.Case{}, fmt.Sprintf("h3cut|%x|%d|%s|%d", g.cutFull, g.cutK, g.end, g.cl), !consistent)
+				continue
 			}
 			coq = fmt.Sprintf("H3Case %s %s %s %s %s %s %s %s %s", coqBlocks(g.interim, 200, g.cl), hk.CoqBool(!headers),
 				hk.CoqList(parens(g.segs)), end, codedOpt, coqBig(g.sent), hk.CoqN(uint64(len(g.wire))), seen, hk.CoqBool(o.SameConn))
